@@ -261,7 +261,7 @@ class TcpclAdaptor(AbstractAdaptor):
         :param cl_conn: The connection object.
         :param next_hop: The desired next-hop or None
         '''
-        pend_data = self._sess_wait.get(next_hop, [])
+        pend_data = self._sess_wait.pop(next_hop, [])
         for data in pend_data:
             cl_conn.send_bundle_data(data)
 
